@@ -363,8 +363,13 @@ def case_single(rec, case):
         if exc is not None:
             rec.violation("extract-refused", f"payload_extract failed: {common.exc_text(exc)}", full)
             return
-        with open(oe, "rb") as fh:
-            out = envmodel.Env(fh.read())
+        try:
+            with open(oe, "rb") as fh:
+                out = envmodel.Env(fh.read())
+        except (OSError, envmodel.EnvelopeError) as e:
+            rec.violation("extract-output-malformed", f"payload_extract succeeded but its output envelope is missing or "
+                          f"malformed: {common.exc_text(e)}", full)
+            return
         if [(k, v.raw) for k, v in out.members if isinstance(k, int)] != \
                 [(k, v.raw) for k, v in env.members if isinstance(k, int)]:
             rec.violation("extract-authenticated-member-changed", "payload_extract changed an integer-keyed member",
@@ -375,10 +380,15 @@ def case_single(rec, case):
             if k not in out.str_members or out.str_members[k].val != v.val:
                 rec.violation("extract-payload-lost", f"other payload {k!r} is missing or changed", full)
         if with_out:
-            with open(of, "rb") as fh:
-                if fh.read() != env.str_members[name].val:
-                    rec.violation("extract-payload-file-differs", "extracted payload file differs from the payload",
-                                  full)
+            try:
+                with open(of, "rb") as fh:
+                    got_payload = fh.read()
+            except OSError as e:
+                got_payload = None
+                rec.violation("extract-payload-file-differs", f"payload_extract succeeded but the payload file cannot "
+                              f"be read: {common.exc_text(e)}", full)
+            if got_payload is not None and got_payload != env.str_members[name].val:
+                rec.violation("extract-payload-file-differs", "extracted payload file differs from the payload", full)
         if with_repl:
             if name not in out.str_members or out.str_members[name].val != repl:
                 rec.violation("extract-replacement-differs", "replacement payload is not the replacement file", full)
@@ -424,7 +434,7 @@ def make_case(seed, n):
     return {"kind": "single" if n % 4 == 3 else "cache", "n": n, "seed": seed}
 
 
-def run_shard(rec, shard, nshards):
+def _run_shard_workload(rec, shard, nshards):
     common.loop(rec, shard, nshards, N[rec.tier], CAP[rec.tier], lambda n: run_case(rec, make_case(rec.seed, n)))
 
 
@@ -461,3 +471,14 @@ def canaries(rec):
     model(outer, None, ".*", "$", ex4, k4, p4)
     out.append(("non-envelope selected as dependency is reported", len(p4) == 2 and not ex4))
     return out
+
+
+FAULT_PLANE_OPS = ('cache-envelope',)
+
+
+def run_shard(rec, shard, nshards):
+    _run_shard_workload(rec, shard, nshards)
+    if shard == 5 % nshards:
+        # complete enumeration of the single file-boundary faults of this property's operations (faultplane.py)
+        from . import faultplane
+        faultplane.run(rec, ID, FAULT_PLANE_OPS)
